@@ -875,6 +875,11 @@ func (w *l1world) exec(op *kop, hstats map[string]int) (known string, ok bool) {
 		}
 		w.names(&o, order)
 		hstats["recover"]++
+	case "mark":
+		// (marks the position of the two final read-only opens in different merge orders)
+		o.s("mark")
+		out.s(";")
+		out.s("MK")
 	case "list":
 		o.s("list")
 		out.s(";")
@@ -971,6 +976,28 @@ func runL1History(g *gen, mode string, nops int, hstats map[string]int, faulty, 
 		}
 		nextH += k
 		hstats["script_fanin"]++
+	}
+	if !faulty && !crashy && mode == "rows" && len(script) == 0 && g.r.Intn(5) == 0 {
+		// the cutoff boundary: a row deleted exactly AT the cutoff keeps its delete marker, a cutoff
+		// one nanosecond later purges it; an older write of the key merged afterwards must lose
+		// against the kept marker
+		t := baseTime + int64(1+g.r.Intn(6))*10
+		h0, h1 := nextH, nextH+1
+		nextH += 2
+		k := keys[0]
+		script = append(script,
+			&kop{kind: "open", h: h0, when: baseTime - 3000000000, seed: g.r.Int63n(1000000)},
+			&kop{kind: "open", h: h1, when: baseTime - 2000000000, seed: g.r.Int63n(1000000)},
+			&kop{kind: "set", h: h1, key: k, when: t - 5, row: mrow{cols: []mcol{{present: true, v: g.smallVal()}}}},
+			&kop{kind: "set", h: h0, key: k, when: t, row: mrow{del: true}},
+			&kop{kind: "set", h: h0, key: keys[1%len(keys)], when: t, row: mrow{cols: []mcol{{present: true, v: g.smallVal()}}}},
+			&kop{kind: "commit", h: h0},
+			&kop{kind: "vacuum", h: h0, before: t}, &kop{kind: "dump", h: h0},
+			&kop{kind: "commit", h: h1},
+			&kop{kind: "open", h: nextH, ro: true, when: baseTime - 1000000000, seed: g.r.Int63n(1000000)}, &kop{kind: "dump", h: nextH},
+			&kop{kind: "vacuum", h: h0, before: t + 1}, &kop{kind: "dump", h: h0})
+		nextH++
+		hstats["script_cutoff_boundary"]++
 	}
 	if !faulty && !crashy && mode != "rows" && len(script) == 0 && g.r.Intn(4) == 0 {
 		// a fork: one parent, two children created on either side of a cutoff, a third handle that
@@ -1118,7 +1145,8 @@ func runL1History(g *gen, mode string, nops int, hstats map[string]int, faulty, 
 				op.kind, op.h2 = "dump", 0
 			}
 		}
-		if w.faulty && g.r.Intn(3) == 0 {
+		forceVanish := w.faulty && op.kind == "open" && len(op.only) == 0 && len(w.currentRootNodes()) >= 3 && g.r.Intn(2) == 0
+		if w.faulty && (g.r.Intn(3) == 0 || forceVanish) {
 			var menu []faultSpec
 			switch op.kind {
 			case "open":
@@ -1151,6 +1179,12 @@ func runL1History(g *gen, mode string, nops int, hstats map[string]int, faulty, 
 					nd := roots[g.r.Intn(len(roots))]
 					menu = []faultSpec{{"G", "n", nd, 0, []int{fErr, fGone}[g.r.Intn(2)], false},
 						{"G", "n", nd, 1, []int{fErr, fGone}[g.r.Intn(2)], true}, {"G", "n", nd, 1, []int{fErr, fGone}[g.r.Intn(2)], true}}
+				}
+				if roots := w.currentRootNodes(); len(roots) >= 3 && forceVanish {
+					// three or more versions to merge and one of the first listed ones has vanished
+					// (NoSuchKey under current/ and under merged/): the others must all be merged
+					menu = []faultSpec{{"G", "c", "*", g.r.Intn(len(roots) - 1), fGone, false}}
+					hstats["fault_open_version_vanished_among_3"]++
 				}
 			case "commit":
 				menu = []faultSpec{{"P", "n", "*", 0, fErr, false}, {"P", "c", "*", 0, fErr, false}, {"P", "m", "*", g.r.Intn(2), fErr, false}, {"D", "c", "*", g.r.Intn(2), fErr, false}}
@@ -1219,6 +1253,21 @@ func runL1History(g *gen, mode string, nops int, hstats map[string]int, faulty, 
 		if ok && op.kind == "clone" {
 			live = append(live, op.h2)
 		}
+	}
+	if !faulty && !crashy && !ending {
+		// two fresh read-only readers merge whatever is under current/ in two different orders:
+		// they must see the same entries (C01)
+		w.exec(&kop{kind: "mark"}, hstats)
+		for i := 0; i < 2; i++ {
+			op := &kop{kind: "open", h: nextH, ro: true, when: baseTime + 7000000000, seed: g.r.Int63n(1000000)}
+			nextH++
+			if _, ok := w.exec(op, hstats); ok {
+				w.exec(&kop{kind: "dump", h: op.h}, hstats)
+			} else {
+				w.exec(&kop{kind: "list"}, hstats)
+			}
+		}
+		hstats["final_two_orders"]++
 	}
 	return w.finish()
 }
